@@ -159,6 +159,15 @@ func allChecks() []*checkDef {
 	return []*checkDef{checkC01(), checkC02(), checkC03(), checkC04(), checkC05(), checkC06(), checkC07(), checkC08(), checkC09(), checkC10(), checkC11(), checkC12(), checkC13(), checkC14(), checkC15(), checkC16(), checkC17(), checkC18(), checkC19(), checkC20()}
 }
 
+// ccRun: every Cache-Control value over a small alphabet through the real parser and storability decision
+func ccRun(tier string) run {
+	ml := 4
+	if tier == "thorough" {
+		ml = 6
+	}
+	return run{Pkg: "./proxy/headers", Scenario: "headers/cache-control", Params: map[string]any{"max_len": ml}}
+}
+
 func freshRuns(tier string) []run {
 	return []run{
 		{Pkg: "./proxy", Scenario: "proxy/fresh", Params: map[string]any{"backend": "memory"}},
@@ -210,7 +219,7 @@ func checkC04() *checkDef {
 		DesignRef: "DESIGN.md section 4 C04, appendix B1",
 		Rule:        "all (policy, header class, gap pattern) tuples and all (method, status) pairs; distinct by tuple; non-trivial = distinct contact pattern",
 		Assumptions: seqAssumptions,
-		Runs:        freshRuns,
+		Runs:        func(tier string) []run { return append(freshRuns(tier), ccRun(tier)) },
 	}
 }
 
@@ -493,6 +502,7 @@ func checkC16() *checkDef {
 			}
 			return []run{
 				{Pkg: "./proxy/headers", Scenario: "headers/range", Params: map[string]any{"max_len": ml, "sizes": []int{0, 1, 36}}},
+				ccRun(tier),
 				{Pkg: "./utils/bytesize", Scenario: "bytesize/enum", Params: map[string]any{"max_len": 5, "max_round_trip": 4096}},
 				{Pkg: "./utils/phc", Scenario: "phc/enum", Params: map[string]any{}, Workers: 8},
 				{Pkg: "./proxy", Scenario: "proxy/connect-targets", Params: map[string]any{}},
